@@ -5,20 +5,38 @@
 //! The python driver `/verif/check` turns the report into evidence / VIOLATION lines.
 
 mod common;
+#[cfg(feature = "e01")]
 mod c01;
+#[cfg(all(feature = "e01", feature = "misc_macros"))]
+mod c01m;
+#[cfg(feature = "e02")]
 mod c02;
+#[cfg(feature = "e03")]
 mod c03;
+#[cfg(feature = "e04")]
 mod c04;
+#[cfg(feature = "e05")]
 mod c05;
+#[cfg(feature = "e06")]
 mod c06;
+#[cfg(feature = "e07")]
 mod c07;
+#[cfg(feature = "e08")]
 mod c08;
+#[cfg(feature = "e09")]
 mod c09;
+#[cfg(feature = "e12")]
 mod c12;
+#[cfg(feature = "e13")]
 mod c13;
+#[cfg(feature = "e15")]
 mod c15;
+#[cfg(feature = "e15")]
+mod c15z;
 mod tree;
+#[cfg(feature = "e16")]
 mod c16;
+#[cfg(feature = "e20")]
 mod c20;
 
 use common::*;
@@ -72,23 +90,38 @@ fn main() {
         }
     }
     silence_panics();
+    start_watchdog();
     let t0 = std::time::Instant::now();
     let mut rep = Report::default();
     let (rule, bounds): (String, String) = if let Some(case) = &replay {
         match id {
+            #[cfg(feature = "e01")]
             "C01" => c01::replay(case, &mut rep),
+            #[cfg(feature = "e02")]
             "C02" => c02::replay(case, &mut rep),
+            #[cfg(feature = "e03")]
             "C03" => c03::replay(case, &mut rep),
+            #[cfg(feature = "e04")]
             "C04" => c04::replay(case, &mut rep),
+            #[cfg(feature = "e05")]
             "C05" => c05::replay(case, &mut rep),
+            #[cfg(feature = "e06")]
             "C06" => c06::replay(case, &mut rep),
+            #[cfg(feature = "e07")]
             "C07" => c07::replay(case, &mut rep),
+            #[cfg(feature = "e08")]
             "C08" => c08::replay(case, &mut rep),
+            #[cfg(feature = "e09")]
             "C09" => c09::replay(case, &mut rep),
+            #[cfg(feature = "e12")]
             "C12" => c12::replay(case, &mut rep),
+            #[cfg(feature = "e15")]
             "C15" | "C11" => c15::replay(id, case, &mut rep),
+            #[cfg(feature = "e13")]
             "C13" | "C14" => c13::replay(id, case, &mut rep),
+            #[cfg(feature = "e16")]
             "C16" => c16::replay(case, &mut rep),
+            #[cfg(feature = "e20")]
             "C20" => c20::replay(case, &mut rep),
             _ => {
                 eprintln!("no replay for {id}");
@@ -97,24 +130,48 @@ fn main() {
         }
         ("replay of one recorded case".into(), case.clone())
     } else {
-        match id {
+        let run = std::panic::AssertUnwindSafe(|| match id {
+            #[cfg(feature = "e01")]
             "C01" => c01::run(tier, &mut rep),
+            #[cfg(feature = "e02")]
             "C02" => c02::run(tier, &mut rep),
+            #[cfg(feature = "e03")]
             "C03" => c03::run(tier, &mut rep),
+            #[cfg(feature = "e04")]
             "C04" => c04::run(tier, &mut rep),
+            #[cfg(feature = "e05")]
             "C05" => c05::run(tier, &mut rep),
+            #[cfg(feature = "e06")]
             "C06" => c06::run(tier, &mut rep),
+            #[cfg(feature = "e07")]
             "C07" => c07::run(tier, &mut rep),
+            #[cfg(feature = "e08")]
             "C08" => c08::run(tier, &mut rep),
+            #[cfg(feature = "e09")]
             "C09" => c09::run(tier, &mut rep),
+            #[cfg(feature = "e12")]
             "C12" => c12::run(tier, &mut rep),
+            #[cfg(feature = "e15")]
             "C15" | "C11" => c15::run(id, tier, &mut rep),
+            #[cfg(feature = "e13")]
             "C13" | "C14" => c13::run(id, tier, &mut rep),
+            #[cfg(feature = "e16")]
             "C16" => c16::run(tier, &mut rep),
+            #[cfg(feature = "e20")]
             "C20" => c20::run(tier, &mut rep),
             _ => {
                 eprintln!("unknown property {id}");
                 std::process::exit(2)
+            }
+        });
+        match catch(run) {
+            Ok(x) => x,
+            Err(p) => {
+                // counters of the interrupted engine are lost; the escaped panic itself is classified
+                let mut r2 = Report::default();
+                escaped_panic(&mut r2, "engine run", &p);
+                rep.merge(r2);
+                ("engine interrupted by an escaped panic".into(), String::new())
             }
         }
     };
